@@ -329,13 +329,13 @@ def run(chk):
             phrase = lex['probe'].get(w, w)
             hit = cpat.accepts(phrase)
             chk.judge(hit is not None, 'C04.visible.cardinal', cpat.revals[0].cls.mod.path,
-                      '%s: %r' % (num.extractor_cls.name, phrase), '%s: %r in L+(%s)' % (code, phrase, hit.name if hit else cpat.names()),
+                      '%s: %r' % (num.extractor_cls.name, phrase), '%s: %r accepted by an Integer%s pattern: %s' % (code, phrase, marker, hit is not None),
                       '%s: the number word %r (%d) is valued by the parser tables but no pattern wired with tag Integer%s (%s) '
                       'accepts %r: the extractor cannot see it' % (code, w, lex['card'][w], marker, cpat.names(), phrase), cpat.revals[0].line)
         for w in lex['ord']:
             hit = opat.accepts(w)
             chk.judge(hit is not None, 'C04.visible.ordinal', opat.revals[0].cls.mod.path,
-                      '%s: %r' % (ordm.extractor_cls.name, w), '%s: %r in L+(%s)' % (code, w, hit.name if hit else opat.names()),
+                      '%s: %r' % (ordm.extractor_cls.name, w), '%s: %r accepted by an ordinal text pattern: %s' % (code, w, hit is not None),
                       '%s: the ordinal %r (%d) is valued by the parser tables but no pattern wired with the ordinal text tag (%s) '
                       'accepts it: the extractor cannot see it' % (code, w, lex['ord'][w], opat.names()), opat.revals[0].line)
 
@@ -437,14 +437,14 @@ def run(chk):
         for ch, phrase in probes:
             hit = cpat.accepts(phrase)
             chk.judge(hit is not None, 'C04.cjk.visible', cpat.revals[0].cls.mod.path, '%s: %r' % (num.extractor_cls.name, phrase),
-                      '%s: %r in L+(%s)' % (code, phrase, hit.name if hit else cpat.names()),
+                      '%s: %r accepted by an Integer%s pattern: %s' % (code, phrase, marker, hit is not None),
                       '%s: %r is valued by the parser tables but no pattern tagged Integer%s (%s) accepts %r'
                       % (code, ch, marker, cpat.names(), phrase), cpat.revals[0].line)
         for ch, v in CJK_ORDINALS.items():
             phrase = CJK_ORDINAL_PREFIX + ch
             hit = opat.accepts(phrase)
             chk.judge(hit is not None, 'C04.cjk.visible', opat.revals[0].cls.mod.path, '%s: %r' % (ordm.extractor_cls.name, phrase),
-                      '%s: %r in L+(%s)' % (code, phrase, hit.name if hit else opat.names()),
+                      '%s: %r accepted by an Ordinal%s pattern: %s' % (code, phrase, marker, hit is not None),
                       '%s: ordinal %r (%d) is not accepted by any pattern tagged Ordinal%s (%s)' % (code, phrase, v, marker, opat.names()),
                       opat.revals[0].line)
         check_tags(chk, ev, code, marker, (num, ncl), (ordm, ocl))
